@@ -845,10 +845,10 @@ func defaultNodes() []NodeConfig {
 	return []NodeConfig{
 		{Name: "primary", Engine: "interp", Cache: "cold", EnvReuse: true},
 		{Name: "i2", Engine: "interp", Cache: "cold", EnvReuse: false},
-		{Name: "i3", Engine: "interp", Cache: "warm", EnvReuse: true, AtreeValidation: true},
+		{Name: "i3", Engine: "interp", Cache: "warm", EnvReuse: true, AtreeValidation: true, KeepLoaded: true},
 		{Name: "v1", Engine: "vm", Cache: "cold", EnvReuse: true},
 		{Name: "v2", Engine: "vm", Cache: "cold", EnvReuse: false},
-		{Name: "p1", Engine: "vmpeep", Cache: "warm", EnvReuse: true, AtreeValidation: true},
+		{Name: "p1", Engine: "vmpeep", Cache: "warm", EnvReuse: true, AtreeValidation: true, KeepLoaded: true},
 	}
 }
 
